@@ -200,3 +200,28 @@ INFO["C18"]["rule"] += " Plus: from_cache + cache_in chains (third run from the 
 INFO["C19"]["rule"] += " Plus: inputs in every order; aliases that are substrings of other tags; None-valued constants / defaults / setup results."
 INFO["C20"]["rule"] += " Plus: inner nodes exchanging indexed values by keyword; the same inner DAG (module-level and defined inside a factory function) called 4 times with constants and results overriding defaults; inline - reconfigure - inline again."
 INFO["C01"]["rule"] += " Plus: 5-6 statement 'wide' programs under every schedule; the nested repeated-call / whole-result programs of C20; nested DAG whose inner nodes exchange indexed values by keyword."
+
+# families added after seed waves 4-6 (see DESIGN.md section 10)
+_MORE = {
+    "C01": "twin constants (1/True/1.0, 0/False/0.0, 2/2.0) as argument, keyword, flag, operand, return member; non-commutative operands with the constant on either side; every program with a defaulted parameter: executor run with explicit arguments, then a defaulted call on the same object.",
+    "C02": "parallel edges (one consumer uses a producer twice through different index paths / as argument and flag); tuple keys; defaulted DAG parameters incl. executor-then-call; ghost completions (a task over while its node runs) and stray completions are part of the controller.",
+    "C03": "selections by a tag equal to another node's id; pairs of targets / exclusions / roots named descendant-first; declaration-order metamorphic oracle for the debug nodes a sub-graph run pulls in; nested programs with setup nodes judged per DAG object.",
+    "C04": "configuration variants (library imported under other defaults); call-form declarations xn(f, **options); AsyncDAG awaited next to a sibling task; starvation monitor on both kinds of wait with a small default executor.",
+    "C05": "configuration variants; call-form declarations; constant-True / constant-False flags x exactly one (other) sequential node; composed-DAG family.",
+    "C06": "composed DAGs with names against dependency order (N<=5); call-form declarations; debug priorities under selections.",
+    "C08": "configuration variants; completion orders inside ALL_COMPLETED waits; dispatched-but-not-running monitor (undersized / escaped pools).",
+    "C09": "run-time nesting x pending setup nodes; run-time recursion (a node calls its own DAG) depth 1..3; starvation at thread- and asyncio-future waits.",
+    "C10": "stateful constants and mutable arguments switched before / DURING the run; flags on inputs of composed DAGs (3 inputs, 2 orders, 16 truthiness combinations); setup nodes with their own flag inside inner DAGs; constants in the return of a deactivated inner DAG (known finding).",
+    "C11": "executor(T).setup(); selections by overlapping string tags; build clause across nested DAG boundaries (6 refused + 2 accepted shapes).",
+    "C12": "every multi-alias selection with the alias lists in both orders.",
+    "C13": "cache_deps_of executors for every node under every debug placement; flags of inner DAGs called without positional arguments; debug nodes with setup parents that have not run.",
+    "C14": "failing methods / operator nodes / partials / lambdas (call location); exception objects as return values under every resource; the program's own error ending the call before a node failure is observed is accepted.",
+    "C15": "executor creation / compose failing inside a history are violations (not harness errors).",
+    "C16": "decorated methods across threads; rendezvous of two calls; first calls of a DAG with pending setup nodes from two threads; two pooled calls; failing nested builds; every module-level lock of tawazi owned by the baton scheduler.",
+    "C17": "histories of awaits on one AsyncDAG object (HIST oracle); driver serves only running nodes and reports starvation; internal errors of the async flavour.",
+    "C18": "keyword / indexed / flag dependencies in the round trips; defaulted argument not repeated at restart; executor constructed before the file is (re)written.",
+    "C19": "tag equal to another node's id, ambiguous tag shadowing an id; chains of setup nodes composed after a call / after setup() / before anything ran; identity of carried setup results.",
+    "C20": "factory-made DAG objects sharing a qualname; thirteen calls of one inner DAG; stateful node functions (flat vs nested differential); defaulted parameters forwarded to inner DAGs; pass-through parameters; nested composed DAGs.",
+}
+for _c, _t in _MORE.items():
+    INFO[_c]["rule"] += " Added after seed waves 4-6: " + _t
